@@ -813,7 +813,10 @@ impl Sim {
             }
             Op::ResGetMut { slot, which, salt } => {
                 let si = self.s(*slot);
-                let which = *which as usize % 4;
+                if g::NRES == 0 {
+                    return Ok(());
+                }
+                let which = *which as usize % g::NRES;
                 let w = self.slots[si].world.as_mut().unwrap();
                 let r = match sut(|| g::get_mut_resource(w, which, *salt)) {
                     Ok(Ok(r)) => r,
@@ -1039,7 +1042,7 @@ impl Sim {
             Err(c) => return Err(unexpected(c, "World::get", "C15")),
         };
         let m = &mut self.slots[si].model;
-        for r in 0..4 {
+        for r in 0..g::NRES {
             if res[r].1 != m.res[r].1 {
                 return Err(viol(
                     "C15",
@@ -1098,7 +1101,7 @@ impl Sim {
                     }
                 }
             }
-            for r in 0..4 {
+            for r in 0..g::NRES {
                 if zoo::RES_HAS_SERIAL[r] {
                     s.insert(sl.model.res[r].0);
                 }
@@ -1382,7 +1385,7 @@ impl Sim {
                     }
                 }
             }
-            for r in 0..4 {
+            for r in 0..g::NRES {
                 exp_by_type[zoo::RES_IX_BASE as usize + r] += 1;
             }
             // Abstract state for coverage accounting.
@@ -1410,6 +1413,9 @@ impl Sim {
                 let is_comp = t < g::NC;
                 let is_res = t >= zoo::RES_IX_BASE as usize && t < zoo::RES_IX_BASE as usize + 4;
                 if !is_comp && !is_res {
+                    continue;
+                }
+                if is_comp && !zoo::TRACKS_DROPS[t] {
                     continue;
                 }
                 let has_serial = if is_comp { zoo::HAS_SERIAL[t] } else { zoo::RES_HAS_SERIAL[t - zoo::RES_IX_BASE as usize] };
@@ -1699,7 +1705,7 @@ pub fn same_content(a: &Model, b: &Model) -> Result<(), String> {
             }
         }
     }
-    for r in 0..4 {
+    for r in 0..g::NRES {
         if a.res[r].1 != b.res[r].1 {
             return Err(format!("resource {}: {:#x} vs {:#x}", zoo::RESOURCE_NAMES[r], a.res[r].1, b.res[r].1));
         }
